@@ -2,7 +2,7 @@
 (* Family "genselect": every non-empty types selection x sort x request extension (extra message, extra dependency file).  Serves C12. *)
 EXTENDS GenShapes, TLC, Json
 CONSTANTS MCDeep, MCLong
-VARIABLES sh, M, obj, tf, dg, pn, pc, hist, viol, aux
+VARIABLES sh, M, Mi, obj, tf, dg, pn, pc, hist, viol, aux
 MCShapes == GenSelectShapes(MCLong)
 MCProps == {"C12"}
 MCScript == <<>>
